@@ -253,6 +253,53 @@ def ob_get_distance(env):
         env.claim("returns_implies_strictly_increasing", d[k + 1] > d[k])
 
 
+def ob_region_getregridded_wiring(env):
+    """EquilibriumRegion.getRegridded: 2*ny_noguards+1 points; 2*y_boundary_guards extra points at an end exactly when that end has no connection (a target)
+    in THIS radial segment; the spacing function is made for the distance between the designated start and end points; wrong arguments refused"""
+    import hypnotoad.core.equilibrium as eqm_
+    guards = env.int("y_boundary_guards", lo=0, hi=4)
+    ny = env.int("ny_noguards", lo=1)
+    dist = [env.real("dist%d" % k) for k in range(6)]
+    for lower_conn, upper_conn in ((None, ("b", 0)), (("a", 0), None), (None, None), (("a", 0), ("b", 0))):
+        r = eqm_.EquilibriumRegion.__new__(eqm_.EquilibriumRegion)
+        r.user_options = types.SimpleNamespace(y_boundary_guards=guards)
+        r.ny_noguards = ny
+        r._startInd, r._endInd = 1, 4
+        # radial segment 1 is the one asked for; segment 0 has the opposite connections (must not be looked at)
+        r.connections = [{"lower": upper_conn, "upper": lower_conn}, {"lower": lower_conn, "upper": upper_conn}]
+        r.get_distance = lambda psi=None: dist
+        rec = {}
+        r.getSfuncFixedSpacing = lambda npts, length, **k: rec.setdefault("sfunc", (npts, length, k)) and "SFUNC"
+        r.newRegionFromPsiContour = lambda c: ("region_from", c)
+        seen = {}
+
+        def base_getregridded(self, npoints, **kw):
+            seen.update(kw, npoints=npoints)
+            return "CONTOUR"
+
+        orig = eqm_.PsiContour.getRegridded
+        eqm_.PsiContour.getRegridded = base_getregridded
+        try:
+            out = r.getRegridded(1, psi="PSI", width=7)
+            for bad in ("npoints", "extend_lower", "extend_upper", "sfunc"):
+                try:
+                    r.getRegridded(1, psi="PSI", **{bad: 1})
+                    env.claim("caller_cannot_override_%s" % bad, False)
+                except ValueError:
+                    env.claim("caller_cannot_override_%s" % bad, True)
+        finally:
+            eqm_.PsiContour.getRegridded = orig
+        tag = "lower=%s,upper=%s" % ("target" if lower_conn is None else "joined", "target" if upper_conn is None else "joined")
+        env.claim("result_wraps_the_regridded_contour", out == ("region_from", "CONTOUR"))
+        env.claim_eq("npoints=2*ny+1:" + tag, seen["npoints"], 2 * ny + 1)
+        env.claim_eq("extend_lower=2*guards_iff_lower_end_is_a_target:" + tag, seen["extend_lower"], 2 * guards if lower_conn is None else 0)
+        env.claim_eq("extend_upper=2*guards_iff_upper_end_is_a_target:" + tag, seen["extend_upper"], 2 * guards if upper_conn is None else 0)
+        env.claim("psi_and_extra_arguments_passed_on", seen["psi"] == "PSI" and seen["width"] == 7 and seen["sfunc"] == "SFUNC")
+        env.claim_eq("spacing_function_for_2*ny+1_points", rec["sfunc"][0], 2 * ny + 1)
+        env.claim_eq("spacing_function_for_the_distance_between_the_designated_end_points", rec["sfunc"][1], dist[4] - dist[1])
+    env.witness("wired")
+
+
 def ob_spacing_wiring(env):
     """getSpacings / getTargetParameter / getSfuncFixedSpacing: an X-point end gets the X-point spacing parameters (sqrt: a = xpoint length, b = 0) - the
     same for the two regions that meet there, so the spacing is continuous across the join - a wall end gets the target parameters of ITS OWN leg;
@@ -322,6 +369,9 @@ def ob_spacing_wiring(env):
 
 
 ENCM = ["hypnotoad.core.equilibrium:EquilibriumRegion.getMonotonicPoloidalDistanceFunc"]
+OBLIGATIONS.append(Ob("region_getRegridded_wiring", ob_region_getregridded_wiring, tier="quick", family="wiring", encodes=["hypnotoad.core.equilibrium:EquilibriumRegion.getRegridded"],
+                      desc="point count, guard-cell extension at target ends of the requested radial segment only, spacing function made for the designated end-to-end distance",
+                      stubs=["PsiContour.getRegridded, getSfuncFixedSpacing, newRegionFromPsiContour -> recorders"], bounds="4 connection combinations; ny, guards, distances symbolic"))
 OBLIGATIONS.append(Ob("spacing_parameter_wiring", ob_spacing_wiring, tier="quick", family="wiring",
                       encodes=["hypnotoad.core.equilibrium:EquilibriumRegion.getSpacings", "hypnotoad.core.equilibrium:EquilibriumRegion.getTargetParameter",
                                "hypnotoad.core.equilibrium:EquilibriumRegion.getSfuncFixedSpacing"],
